@@ -40,15 +40,31 @@ def mk_classes():
             self.b > 1
 
     @vsc.randobj
+    class J(object):
+        """no always-on block relates a and b: they live in different rand sets until a call's Boolean
+        combination of dynamic blocks relates them"""
+        def __init__(self):
+            self.a = vsc.rand_bit_t(2)
+            self.b = vsc.rand_bit_t(2)
+
+        @vsc.dynamic_constraint
+        def d1(self):
+            self.a < 2
+
+        @vsc.dynamic_constraint
+        def d2(self):
+            self.b > 1
+
+    @vsc.randobj
     class H(object):
         def __init__(self):
             self.l = vsc.rand_list_t(K())
             for _ in range(2):
                 self.l.append(K())
-    return K, H
+    return K, H, J
 
 
-SLOTS = ["k0", "k1", "k2", "h0"]
+SLOTS = ["k0", "k1", "k2", "h0", "j0", "j1"]
 
 # inline menu for a K instance: name -> (builder(it), predicate(a,b))
 K_INLINE = {
@@ -72,17 +88,29 @@ H_INLINE = {
 }
 
 
+J_INLINE = {
+    "d1|d2": (lambda it: it.d1() | it.d2(), lambda a, b: a < 2 or b > 1),
+    "d2|d1": (lambda it: it.d2() | it.d1(), lambda a, b: a < 2 or b > 1),
+    "d1&d2": (lambda it: it.d1() & it.d2(), lambda a, b: a < 2 and b > 1),
+    "d2&d1": (lambda it: it.d2() & it.d1(), lambda a, b: a < 2 and b > 1),
+    "~d1|d2": (lambda it: (~it.d1()) | it.d2(), lambda a, b: (not a < 2) or b > 1),
+    "d2&~d1": (lambda it: it.d2() & (~it.d1()), lambda a, b: b > 1 and not a < 2),
+    "b==0;d1|d2": (lambda it: (it.b == 0, it.d1() | it.d2()), lambda a, b: b == 0 and (a < 2 or b > 1)),
+    "d1": (lambda it: it.d1(), lambda a, b: a < 2),
+}
+
+
 def base_pred(a, b):
     return a <= b
 
 
 class World(object):
     def __init__(self):
-        self.K, self.H = mk_classes()
+        self.K, self.H, self.J = mk_classes()
         self.objs = {}
 
     def create(self, slot):
-        self.objs[slot] = self.H() if slot == "h0" else self.K()
+        self.objs[slot] = self.H() if slot == "h0" else self.J() if slot.startswith("j") else self.K()
 
     def instances(self, slot):
         o = self.objs[slot]
@@ -106,7 +134,7 @@ class World(object):
         o.set_randstate(SRandState(script))
         if kind == "rand":
             return common.outcome(o.randomize)
-        bld = (H_INLINE if slot == "h0" else K_INLINE)[op[2]][0]
+        bld = (H_INLINE if slot == "h0" else J_INLINE if slot.startswith("j") else K_INLINE)[op[2]][0]
 
         def f():
             with o.randomize_with() as it:
@@ -160,7 +188,7 @@ def enabled_ops(w):
     for s in SLOTS:
         if s in w.objs:
             ops.append(["rand", s])
-            for nm in (H_INLINE if s == "h0" else K_INLINE):
+            for nm in (H_INLINE if s == "h0" else J_INLINE if s.startswith("j") else K_INLINE):
                 ops.append(["with", s, nm])
     return ops
 
@@ -176,6 +204,9 @@ def expected_sets(op):
             p = preds.get(i)
             out["h0.l[%d]" % i] = set(t for t in full if p is None or p(*t))
         return out
+    if slot.startswith("j"):
+        p = J_INLINE[op[2]][1] if op[0] == "with" else None
+        return {slot: set((a, b) for a in range(4) for b in range(4) if p is None or p(a, b))}
     p = K_INLINE[op[2]][1] if op[0] == "with" else None
     return {slot: set(t for t in full if p is None or p(*t))}
 
